@@ -34,7 +34,7 @@ import vlib
 from vlib import fs2b, b2fs, ints
 
 ID = "C09"
-GEN = ["MasksGen"]
+GEN = ["MasksGen", "BnafGen", "Wrappers"]
 RULE = ("exhaustive size grid: rank_based_mask on integer rank vectors of length 0..4 with repeated/negative ranks, both eq; "
         "block masks for block shapes (1..3)x(1..3), n_blocks 1..4, k in -2..2; MaskedAutoregressive for dim 1..5, cond_dim None/1/3, "
         "width 1..7, depth 0..3, transformer Affine (2 params) / RationalQuadraticSpline(knots=2) (8 params): every Where.cond mask "
